@@ -432,3 +432,5 @@ func verifByteAt(b []byte, i int) byte {
 	}
 	return b[:cap(b)][i]
 }
+
+func verifResultOwned(v any) bool { return true }
